@@ -281,9 +281,15 @@ CLAIMS["C06"] = dict(
          "exception exactly when the body ends by raising (C06_error_exactly_on_exception, C06_error_event); an iteration "
          "is try: #loop..; rebind; body finally: #endloop.. (C06_loop_iteration_bracketed); a yield is #yield, suspension, "
          "#receive, and nothing is received when the driver throws or closes (C06_yield_then_receive, "
-         "C06_throw_no_receive); return reports through #value and falling off the end is return None. Counting "
-         "statements over whole runs (exactly once per activation / iteration) are not proved; the oracle checks the "
-         "merged meta-event stream of generated programs against the bracket grammar. " + TIE,
+         "C06_throw_no_receive); return reports through #value and falling off the end is return None. Over whole "
+         "runs, by a generic invariant theorem for the interpreter (Proofs/Inv.lean) instantiated for the recording "
+         "handler: the events of an activation are #enter, then only events named after variables or the body's own "
+         "meta events, then #error with the exception exactly if it ends by raising, then #exit — nothing of the "
+         "last two only for an abandoned generator (C06_events_of_activation; C06_rewritten_events for the rewritten "
+         "function through the refinement theorem; C06_generated_events with no hypothesis left; "
+         "C06_enter_exactly_once). NOT proved: pairing of the loop markers over whole runs and #value exactly once "
+         "per normal completion (the latter is false: F7c, F7d); the oracle checks the merged meta-event stream of "
+         "generated programs against the bracket grammar. " + TIE,
     design_ref="DESIGN.md section 5, C06",
     note=NOTE_M2 + "Known finding F7c (a return in a finally block cancels an exception after #error was delivered). "
          "An abandoned generator (closed, then yields again) gets no #exit: Python never resumes it.",
@@ -312,8 +318,15 @@ CLAIMS["C16"] = dict(
          "(C16_declaration_supplied_or_fails); no interact call returns the marker and a binding of a program value "
          "through the handler never stores it (C16_interact_never_returns_marker, C16_binding_never_stores_marker); an "
          "unbound name raises the name error where it is read, an unset global that is never read costs nothing "
-         "(C16_undefined_name_is_nameerror, C16_missing_global_skipped). That the marker occurs nowhere in a whole run "
-         "(events of accumulating handlers, return values) is not proved: the oracle runs generated functions with "
+         "(C16_undefined_name_is_nameerror, C16_missing_global_skipped). Over whole runs, by a generic invariant theorem "
+         "for the interpreter (Proofs/Inv.lean, Proofs/InvMarker.lean): for every function of the fragment, capture "
+         "set, host that never produces the marker and handler that answers good values, nothing or a good exception, "
+         "however the activation ends no variable, yielded value or pending exception holds the marker and the value "
+         "returned / exception raised is not the marker (C16_marker_nowhere); carried to the rewritten function by "
+         "the refinement theorem (C16_rewritten_never_returns_marker) and stated without hypotheses for the host and "
+         "the recording/overriding handler of the generated programs (C16_generated_host, C16_generated_handler, "
+         "C16_generated_never_marker). PARTIAL because the fragment excludes what is outside coreF and because values "
+         "handed to accumulating handlers are checked by the oracle only: it runs generated functions with "
          "declarations and conditionally read undefined globals under every subset of supplied variables x {tooled, "
          "probing on subsets, probing on #enter} and scans results and events for the marker. " + TIE,
     design_ref="DESIGN.md section 5, C16",
